@@ -230,6 +230,7 @@ class PyObj:
         dense.c contracts, assumed on entry elsewhere) and of a sparse one."""
         m = z3.Implies(self.ismat, z3.And(
             self.nrows >= 0, self.ncols >= 0,
+            self.nrows <= 2**31 - 1, self.ncols <= 2**31 - 1,
             self.nrows * self.ncols <= 2**31 - 1,
             self.id >= 0, self.id <= 2, z3.Not(self.issp)))
         s = z3.Implies(self.issp, z3.And(
@@ -543,6 +544,16 @@ class Executor:
             return
         st.obligs.append(Oblig(self.site(kind, text), kind, list(st.path()),
                                goal, text, node.get('line', 0), extra))
+        if kind in ('nooverflow', 'divzero'):
+            # assert-then-assume: later obligations (and later overflow
+            # checks) are examined on executions in which this operation did
+            # not overflow, i.e. where mathematical and machine semantics
+            # still agree.  Hence every refuted nooverflow obligation is a
+            # *first* overflow on some path.
+            if st.guards:
+                st.pc.append(z3.Implies(z3.And(st.guards), goal))
+            else:
+                st.pc.append(goal)
 
     # ---------------------------------------------------------- expressions
     def ev(self, n, st):
